@@ -302,7 +302,7 @@ def r03_4_slot_order(chk):
                 return True
         return False
     guard_idx = None
-    from ..terms import neg as _neg, literals as _literals
+    from ..terms import neg as _neg, literals as _literals, passed_refusal as _passed
     refusal = set()
     for pc_, _t in raise_conditions(isum):
         for c_ in pc_:
@@ -314,7 +314,7 @@ def r03_4_slot_order(chk):
             if l[0] == "cmp" and l[1] == "!=" and ((ordered_names(l[2]) and l[3] == A(data_p, "dtype", "names")) or
                                                    (ordered_names(l[3]) and l[2] == A(data_p, "dtype", "names"))):
                 # nothing but earlier refusals having passed may stand beside the comparison
-                if all(o is l or _neg(o) in refusal for o in e.pc):
+                if all(o is l or _passed(o, refusal) for o in e.pc):
                     guard_idx = i
     chk.require(guard_idx is not None, "R03.4", "guard-compares-ordered-names",
                 "no raise under `<the frame's channel names, in order> != <the chunk dtype's field names>`", init.where)
